@@ -584,8 +584,8 @@ def gains_tolerance(r: "Ref", ubar, seed: int):
     K0, k0, conds = riccati_np(r.A, r.B, r.c, r.Q, r.p, r.x0, ubar, with_cond=True)
     cmax = np.maximum.accumulate(conds[::-1])[::-1]
     sK, sk = np.zeros(r.T), np.zeros(r.T)
-    for _ in range(3):
-        pert = lambda a: a * (1 + d * rs.uniform(-1, 1, a.shape))
+    for _ in range(4):
+        pert = lambda a: a + d * rs.uniform(-1, 1, a.shape) * (np.abs(a) + 0.01 * np.abs(a).max())
         Qp = pert(r.Q)
         Qp = (Qp + np.swapaxes(Qp, -1, -2)) / 2
         K1, k1 = riccati_np(pert(r.A), pert(r.B), pert(r.c), Qp, pert(r.p), pert(r.x0), None if ubar is None else pert(np.asarray(ubar)))
